@@ -8,8 +8,10 @@ package revocation
 //@ pred signedok(k, m) := cborok(m) && asn1ok(cborsig(m)) && asn1rest(cborsig(m)) == 0 && ecdsaok(k, sha256(cbormsg(m)), asn1R(cborsig(m)), asn1S(cborsig(m)))
 //@ # framed: the bytes hashed for an event (index, parent hash, value without length framing) determine the three parts: the parent hash of
 //@ # the first event - the only one not compared with a computed hash - is a full SHA-256 multihash (34 bytes), and values are positive
-//@ pred framed(events) := len(events) > 0 ==> (len(events[0].ParentHash) == 34 && mhok(bytes(events[0].ParentHash)) && mhcode(bytes(events[0].ParentHash)) == 18 && forall i in 0..len(events) :: val(events[i].E) > 0)
+//@ pred framed(events) := len(events) > 0 ==> (len(events[0].ParentHash) == 34 && mhok(bytes(events[0].ParentHash)) && mhcode(bytes(events[0].ParentHash)) == 18 && forall i in 0..len(events) :: events[i] != nil && events[i].E != nil && val(events[i].E) > 0)
 //@ pred chained(events, acc) := len(events) > 0 ==> (framed(events) && hasheq(events[len(events)-1], acc.EventHash) && (forall i in 1..len(events) :: hasheq(events[i-1], events[i].ParentHash)) && (forall i in 0..len(events) :: events[i].Index == wrapU64(events[0].Index + i)))
+//@ # representation invariant of EventList.verified: a list marked verified (without recorded error) is internally chained - it says nothing about any accumulator
+//@ pred elinv(el) := el.verified && el.validationErr == nil ==> (forall i in 1..len(el.Events) :: hasheq(el.Events[i-1], el.Events[i].ParentHash)) && (forall i in 0..len(el.Events) :: el.Events[i].Index == wrapU64(el.Events[0].Index + i))
 //@ pred evnonnil(events) := forall i in 0..len(events) :: events[i] != nil && events[i].E != nil
 //@ axiom sha256supported(): mhsupported(18)
 
@@ -63,13 +65,15 @@ package revocation
 
 //@ func (*EventList).Verify
 //@   property C10 C09
-//@   requires el != nil && acc != nil && evnonnil(el.Events)
-//@   ensures checked: err == nil && !old(el.verified) ==> chained(el.Events, acc)
+//@   requires el != nil && acc != nil && elinv(el)
+//@   ensures[C10] checked: err == nil ==> chained(el.Events, acc)
+//@   ensures inv: elinv(el)
 //@   modifies el.verified, el.validationErr
-//@   loop 0 invariant 0 <= $i && $i <= len(events) && len(events) > 0
-//@   loop 0 invariant forall j in 1..$i :: hasheq(events[j-1], events[j].ParentHash)
-//@   loop 0 invariant forall j in 0..$i :: events[j].Index == wrapU64(events[0].Index + j)
-//@   loop 0 invariant len(events[0].ParentHash) == 34 && mhok(bytes(events[0].ParentHash)) && mhcode(bytes(events[0].ParentHash)) == 18 && forall j in 0..$i :: val(events[j].E) > 0
+//@   loop 0 invariant 0 <= $i && $i <= len(events) && len(events) > 0 && forall j in 0..$i :: events[j] != nil && events[j].E != nil && val(events[j].E) > 0
+//@   loop 1 invariant 0 <= $i && $i <= len(events) && len(events) > 0
+//@   loop 1 invariant forall j in 1..$i :: hasheq(events[j-1], events[j].ParentHash)
+//@   loop 1 invariant forall j in 0..$i :: events[j].Index == wrapU64(events[0].Index + j)
+//@   loop 1 invariant len(events[0].ParentHash) == 34 && mhok(bytes(events[0].ParentHash)) && mhcode(bytes(events[0].ParentHash)) == 18 && forall j in 0..len(events) :: events[j] != nil && events[j].E != nil && val(events[j].E) > 0
 //@   mustfail canary: err != nil
 
 //@ func (Hash).wellFormed
@@ -93,8 +97,8 @@ package revocation
 //@   property C10 C09
 //@   premise lastindex: err == nil && len(update.Events) > 0 ==> update.Events[len(update.Events)-1].Index == result0.Index
 //@   premise signednu: err == nil && pk.N != nil ==> result0.Nu != nil && hasinv(val(result0.Nu), val(pk.N))
-//@   requires update != nil && pk != nil && update.SignedAccumulator != nil && evnonnil(update.Events)
-//@   ensures chain: err == nil ==> result0 != nil && result0 == update.SignedAccumulator.Accumulator && chained(update.Events, result0)
+//@   requires update != nil && pk != nil
+//@   ensures chain: err == nil ==> update.SignedAccumulator != nil && result0 != nil && result0 == update.SignedAccumulator.Accumulator && chained(update.Events, result0)
 //@   ensures auth: err == nil && old(update.SignedAccumulator.Accumulator) == nil ==> pk.Counter == update.SignedAccumulator.PKCounter && signedok(ref(pk.ECDSA), bytes(update.SignedAccumulator.Data))
 //@   ensures cached: old(update.SignedAccumulator.Accumulator) != nil ==> (err == nil ==> result0 == old(update.SignedAccumulator.Accumulator)) && update.SignedAccumulator.Accumulator == old(update.SignedAccumulator.Accumulator)
 //@   modifies update.SignedAccumulator.Accumulator
@@ -184,14 +188,14 @@ package revocation
 //@   # proof commitments hold that object by pointer and are not refreshed for an unchanged index, so this is what makes the time
 //@   # a verifier reads from a proof built from a prepared commitment the current one
 //@   safety
-//@   requires w != nil && pk != nil && pk.N != nil && val(pk.N) > 1 && update != nil && update.SignedAccumulator != nil && evnonnil(update.Events) && prodinv(update)
-//@   requires w.U != nil && w.E != nil && val(w.E) > 0
-//@   assume invertible: hasinv(val(w.U), val(pk.N))
+//@   requires w != nil && pk != nil && pk.N != nil && val(pk.N) > 1 && update != nil && prodinv(update)
+//@   requires w.E != nil ==> val(w.E) > 0
 //@   ensures atomic: err != nil ==> w.U == old(w.U) && w.E == old(w.E) && w.SignedAccumulator == old(w.SignedAccumulator) && (old(w.SignedAccumulator) != nil ==> (old(w.SignedAccumulator.Accumulator) != nil ==> w.SignedAccumulator.Accumulator == old(w.SignedAccumulator.Accumulator)) && w.SignedAccumulator.PKCounter == old(w.SignedAccumulator.PKCounter) && w.SignedAccumulator.Data == old(w.SignedAccumulator.Data)) && val(w.U) == old(val(w.U))
 //@   ensures forward: err == nil ==> w.SignedAccumulator != nil && w.SignedAccumulator.Accumulator != nil && (old(w.SignedAccumulator.Accumulator) != nil ==> w.SignedAccumulator.Accumulator.Index >= old(w.SignedAccumulator.Accumulator.Index))
 //@   ensures checked: err == nil && w.U != old(w.U) ==> w.SignedAccumulator.Accumulator.Nu != nil && pow(val(w.U), val(w.E), val(pk.N)) == val(w.SignedAccumulator.Accumulator.Nu)
 //@   ensures kept: w.E == old(w.E) && val(w.E) == old(val(w.E))
 //@   ensures[C11] inplace: err == nil && old(w.SignedAccumulator.Accumulator) != nil && w.SignedAccumulator.Accumulator.Index == old(w.SignedAccumulator.Accumulator.Index) ==> w.SignedAccumulator == old(w.SignedAccumulator)
+//@   ensures[C09] samechain: err == nil && old(w.SignedAccumulator.Accumulator) != nil && w.SignedAccumulator.Accumulator.Index == old(w.SignedAccumulator.Accumulator.Index) && old(w.SignedAccumulator.Accumulator.Nu) != nil ==> w.SignedAccumulator.Accumulator.Nu != nil && val(w.SignedAccumulator.Accumulator.Nu) == old(val(w.SignedAccumulator.Accumulator.Nu))
 //@   ensures tracked: err == nil && old(w.SignedAccumulator.Accumulator) != nil && w.SignedAccumulator.Accumulator.Index != old(w.SignedAccumulator.Accumulator.Index) ==> w.U != old(w.U)
 //@   ensures verified: err == nil && (w.U != old(w.U) || w.SignedAccumulator != old(w.SignedAccumulator)) ==> update.SignedAccumulator.Accumulator != nil && chained(update.Events, update.SignedAccumulator.Accumulator)
 //@   ensures notrevoked: err == nil && w.U != old(w.U) && len(update.Events) > 0 && old(w.SignedAccumulator.Accumulator) != nil ==> gcd(val(w.E), old(eprod(update.Events, w.SignedAccumulator.Accumulator.Index + 1 - update.Events[0].Index, len(update.Events)))) == 1
